@@ -122,6 +122,24 @@ def run(ctx):
             bad = bad or "empty is reported with hazard slot 0 still set"
     o.check(bad is None, "guarded empty", bad, site=pop.loc, construct="mpmc empty")
 
+    # the FIFO's safety under node reuse rests on the reclamation scan: its rules (C14) are obligations of C13 too
+    from props import c14
+    import check as _chk
+    sub = _chk.Ctx("C14", ctx.tier, ctx.seed)
+    sub._progs = ctx._progs
+    sub.config = ctx.config
+    c14.run(sub)
+    o = ctx.ob("reclaim.dep", "", "the hazard-pointer machinery the FIFO retires its nodes through satisfies every structural rule of C14 (publication fence, "
+               "scan coverage, sort/search agreement, reclaim decision, thresholds, recycling only through the gc callback)",
+               "a scan that misses a published hazard frees a node another popper still holds; the node is reused and the popper's CAS succeeds on the "
+               "reused head (ABA): one value is popped twice and the list is cut")
+    fails = [x for x in sub.obs if x.status == "fail"]
+    if fails:
+        x = fails[0]
+        o.fail("C14.%s in %s: %s" % (x.rule, x.fn, x.found), site=x.sites[0] if x.sites else None, witness=x.witness, construct="C14 dependency: " + (x.construct or x.rule))
+    else:
+        o.ok("%d C14 obligations discharged" % len(sub.obs))
+
     o = ctx.ob("fields", "", "head is modified only by the pop CAS (and init/destroy), tail only by the push CAS (and init)", "")
     bad = None
     for fn in P.unique_functions():
